@@ -467,7 +467,7 @@ func (e *Engine) coverAll(aggs map[string]*obAgg, order []string) int64 {
 					continue
 				}
 				tried++
-				r, _ := dischargeOne(o.Cover(), e.outDir, o.Name()+".cover", 5)
+				r, _ := dischargeOne(o.Cover(), e.outDir, o.Name()+".cover", 2)
 				mu.Lock()
 				ms += r.Ms
 				mu.Unlock()
